@@ -483,14 +483,19 @@ func runConn(c *mon.Case, r *mon.Run, p params, sp **server) {
 	writeOne := func(sz int) bool {
 		mu.Lock()
 		off := written
-		submitted = off + int64(sz)
+		if off+int64(sz) > submitted {
+			submitted = off + int64(sz)
+		}
 		mu.Unlock()
 		data := s.up.Bytes(off, sz)
 		_, crBefore := closeState()
 		n, err := cc.Write(data)
+		for i := range data {
+			data[i] ^= 0xa5 // the caller owns the buffer again as soon as Write has returned
+		}
 		mu.Lock()
 		written = off + int64(n)
-		submitted = written
+		// submitted stays at its high-water mark: bytes of a failed Write were still handed to the connection
 		if n > 0 {
 			writes = append(writes, wrec{off, n})
 		}
